@@ -6,6 +6,7 @@ import GoNfsd.Driver.Kvs
 import GoNfsd.Driver.Simple
 import GoNfsd.Driver.Locks
 import GoNfsd.Driver.Wal
+import GoNfsd.Driver.Fsck
 
 def main (args : List String) : IO UInt32 :=
   match args with
@@ -17,6 +18,7 @@ def main (args : List String) : IO UInt32 :=
   | ["simple"] => GoNfsd.Driver.Simple.main
   | ["locks"] => GoNfsd.Driver.Locks.main
   | ["wal"] => GoNfsd.Driver.Wal.main
+  | ["fsck"] => GoNfsd.Driver.Fsck.main
   | _ => do
     IO.eprintln "usage: drv <mkfs>"
     return 2
